@@ -1,4 +1,6 @@
 import Hgxv.Proofs.C14Gen
+import Hgxv.Proofs.C14Hoad
+import Hgxv.Proofs.C14Shuffle
 /-! # C14 — random generators honour their structural contracts and their seeds
 
 Property theorems about the model `Hgxv/Model/C14.lean`.  Every statement is for ALL draws that satisfy the
@@ -171,3 +173,223 @@ claim seed reproducibility for `random_shuffle`. -/
 example : ∃ (g : RNG Nat) (w w' : World Nat),
     (shuffleIndicesM g 3 1 (some 7) w).1 ≠ (shuffleIndicesM g 3 1 (some 7) w').1 :=
   ⟨{ seed := fun s => s, sample := fun st _ _ => ([st % 3], st + 1) }, ⟨0, 0⟩, ⟨1, 0⟩, by decide⟩
+
+/-! ## HOADmodel -/
+
+/-- `HOADmodel(N, activities_per_order, time)` for every outcome of the coins and samples.  Hypothesis: every activity
+vector has length `N`.  `hoad .. = some out` says that the recording follows the pattern `random() [sample]` and that
+every sample satisfies the contract of `random.sample(range(N), order)` (`sampleOK`); the correspondence check shows
+that real runs are of this kind.  Conclusion: the records are pairwise distinct; each has a time in `[0, time)`, and for
+some order of the dict size `order + 1`, distinct nodes, all below `N`. -/
+theorem C14_hoad (N time : Nat) (acts : List (Nat × List Rat)) (draws : List HoadDraw) (out : List (Nat × Edge))
+    (hlen : ∀ oa ∈ acts, oa.2.length = N) (h : hoad N time acts draws = some out) :
+    out.Nodup ∧ ∀ r ∈ out, r.1 < time ∧ ∃ oa ∈ acts, r.2.length = oa.1 + 1 ∧ r.2.Nodup ∧ ∀ x ∈ r.2, x < N := by
+  unfold hoad at h
+  split at h
+  · rename_i o1 ho
+    cases h
+    refine ⟨nodup_dedup _, ?_⟩
+    intro r hr
+    obtain ⟨h1, oa, hoa, h2⟩ := hoadOrders_spec N time acts draws o1 [] hlen ho r (mem_dedup.mp hr)
+    exact ⟨h1, oa, hoa, h2⟩
+  · cases h
+
+/-- non-vacuity (activities and coins are quarters): node 0 is activated and samples node 2; node 1 is activated but
+samples itself (dropped); node 2 is not activated -/
+example : hoad 3 1 [(1, [3/4, 3/4, 1/4])]
+    [⟨1/4, true, [2]⟩, ⟨1/2, true, [1]⟩, ⟨1/2, false, []⟩] = some [(0, [0, 2])] := by decide +kernel
+
+/-! ## add_random_edge / add_random_edges -/
+
+/-- how a call hands back its result: `inplace=False` leaves the argument as it was and returns the new object,
+`inplace=True` changes the argument and returns nothing -/
+theorem C14_inplace (h h' : HG) :
+    (finish false h h').arg = h ∧ (finish false h h').ret = some h' ∧
+    (finish true h h').arg = h' ∧ (finish true h h').ret = none := by
+  simp [finish]
+
+/-- `add_random_edge` for every outcome of `random.sample(nodes, size)`.  Hypotheses: the class invariants `WF`;
+exactly one of `order`/`size`; the sample contract.  Conclusion (for the object `h'` that carries the result, see
+`C14_inplace`): node list and weighted flag unchanged; the only key that may be new is the sorted sample, which has the
+requested size and distinct existing nodes; every other hyperedge keeps its weight and metadata; the sampled hyperedge
+itself follows `add_edge` (`recAfter`). -/
+theorem C14_add_random (h : HG) (wf : WF h) (order size : Option Nat) (inplace : Bool) (s : Nat)
+    (hs : resolveSize order size = some s) (draw : List Nat) (hd : IsSample h.nodes s draw) :
+    ∃ h', addRandomEdge h order size inplace draw = some (finish inplace h h') ∧
+      h'.nodes = h.nodes ∧ h'.weighted = h.weighted ∧ WF h' ∧
+      keys h' = insNew (keys h) (sortE draw) ∧
+      (sortE draw).length = s ∧ (sortE draw).Nodup ∧ (∀ x ∈ sortE draw, x ∈ h.nodes) ∧
+      (∀ k, k ≠ sortE draw → AL.get? h'.edges k = AL.get? h.edges k) ∧
+      AL.get? h'.edges (sortE draw) = some (recAfter h (sortE draw) 1 0) := by
+  obtain ⟨h1, h2, h3⟩ := hd
+  have hle : s ≤ h.nodes.length := by
+    have := List.Nodup.length_le_of_subset h1 (fun x hx => h3 x hx); omega
+  refine ⟨addEdge h draw 1 0, by simp [addRandomEdge, hs, hle], nodes_addEdge_of_subset _ _ _ _ h3, by simp,
+    wf.addEdge draw 1 0 h3, keys_addEdge _ _ _ _, by simp [h2], by simpa using h1,
+    fun x hx => h3 x (by simpa using hx), ?_, get?_addEdge_self _ _ _ _⟩
+  intro k hk
+  exact get?_addEdge_ne _ _ _ _ _ (Ne.symm hk)
+
+/-- `add_random_edges(hg, k, ..)` for every outcome of the samples of a run that returned.  Conclusion: node list and
+flag unchanged; the new keys are exactly the `k` pairwise distinct collected hyperedges, each of the requested size
+over distinct existing nodes; every hyperedge that was not drawn keeps its weight and metadata. -/
+theorem C14_add_random_edges (h : HG) (wf : WF h) (k : Nat) (order size : Option Nat) (inplace : Bool) (s : Nat)
+    (hs : resolveSize order size = some s) (draws : List (List Nat)) (hd : ∀ d ∈ draws, IsSample h.nodes s d)
+    (hret : consumedExactly k [] draws = true) :
+    ∃ h', addRandomEdges h k order size inplace draws = some (finish inplace h h') ∧
+      h'.nodes = h.nodes ∧ h'.weighted = h.weighted ∧ WF h' ∧
+      (∀ e, e ∈ keys h' ↔ e ∈ keys h ∨ e ∈ collect k [] draws) ∧
+      (collect k [] draws).Nodup ∧ (collect k [] draws).length = k ∧
+      (∀ e ∈ collect k [] draws, e.length = s ∧ e.Nodup ∧ ∀ x ∈ e, x ∈ h.nodes) ∧
+      (∀ e, e ∉ collect k [] draws → AL.get? h'.edges e = AL.get? h.edges e) := by
+  have hc := collect_spec h.nodes s k draws [] hd List.nodup_nil (by simp)
+  have hacc : k = 0 ∨ s ≤ h.nodes.length := by
+    by_cases hk : k = 0
+    · exact Or.inl hk
+    · obtain ⟨d, hd'⟩ := List.exists_mem_of_ne_nil draws (consumedExactly_pos hret hk)
+      obtain ⟨h1, h2, h3⟩ := hd d hd'
+      have := List.Nodup.length_le_of_subset h1 (fun x hx => h3 x hx)
+      exact Or.inr (by omega)
+  have hsub : ∀ t ∈ (collect k [] draws).map (fun e => (e, ((1 : Nat), (0 : Nat)))), ∀ x ∈ t.1, x ∈ h.nodes := by
+    intro t ht x hx
+    obtain ⟨e, he, rfl⟩ := List.mem_map.mp ht
+    exact (hc.2 e he).2.2.1 x hx
+  refine ⟨addEdges h (collect k [] draws), by simp [addRandomEdges, hs, hacc], nodes_addMany_of_subset _ _ hsub,
+    by simp [addEdges], WF.addMany _ wf hsub, ?_, hc.1, collect_length k draws [] hret (by simp),
+    fun e he => ⟨(hc.2 e he).1, (hc.2 e he).2.1, (hc.2 e he).2.2.1⟩, ?_⟩
+  · intro e
+    rw [keys_addEdges_sorted h _ (fun e he => (hc.2 e he).2.2.2.1), mem_insAll]
+  · intro e he
+    unfold addEdges
+    apply get?_addMany_of_not_mem
+    intro t ht hte
+    obtain ⟨e', he', rfl⟩ := List.mem_map.mp ht
+    simp only at hte
+    rw [(hc.2 e' he').2.2.2.1] at hte
+    exact he (hte ▸ he')
+
+/-- non-vacuity: a weighted hypergraph, the sample re-draws the existing hyperedge `[1,2]` (weight 5 -> 6, metadata
+reset), the hyperedge `[0,1,2]` is untouched -/
+example : (addRandomEdge ⟨true, [0, 1, 2], [([1, 2], (5, 7)), ([0, 1, 2], (2, 3))]⟩ none (some 2) true [2, 1]).map
+    (fun r => r.arg.edges) = some [([1, 2], (6, 0)), ([0, 1, 2], (2, 3))] := by decide
+
+/-! ## random_shuffle / random_shuffle_all_orders -/
+
+/-- `random_shuffle` (repaired, D27) for every outcome of the index sample and of the choices.  Hypotheses: class
+invariants; exactly one of `order`/`size`; `0 ≤ p = pn/pd ≤ 1`; `random.sample(range(m), k)` returned `k = int(p*m)`
+indices; every `np.random.choice` returned `s` distinct members of the pool (`ShuffleDrawsOK`).  Conclusion for the
+object `h'` carrying the result (`C14_inplace`: with `inplace=False` the argument stays `h`):
+node list and flag kept; hyperedges of other sizes keep weight and metadata and none appears or disappears; every
+hyperedge of the result has size `s` or is such an untouched one (sizes of rewired hyperedges are kept); a size-`s`
+hyperedge is one that was not selected or has distinct nodes all taken from the selected (rewired) hyperedges; and for
+`p = 0` the result has the same records (weights and metadata included) as the argument. -/
+theorem C14_shuffle (h : HG) (wf : WF h) (order size : Option Nat) (inplace : Bool) (pn : Int) (pd s : Nat)
+    (hs : resolveSize order size = some s) (hp : 0 ≤ pn ∧ pn ≤ pd)
+    (idx : List Nat) (choices : List (List Nat))
+    (hidx : idx.length = numToRandomize pn.toNat pd (edgesOfSize h s).length)
+    (hd : ShuffleDrawsOK h s idx choices) :
+    ∃ h', randomShuffle h order size inplace pn pd idx choices = some (finish inplace h h') ∧
+      WF h' ∧ h'.nodes = h.nodes ∧ h'.weighted = h.weighted ∧
+      (∀ k : Edge, k.length ≠ s → AL.get? h'.edges k = AL.get? h.edges k) ∧
+      (∀ k ∈ keys h', k.length = s ∨ (k ∈ keys h ∧ k.length ≠ s)) ∧
+      (∀ k ∈ keys h', k.length = s →
+        (∃ t ∈ keptList idx (edgesOfSize h s) 0, k = t.1) ∨
+        (k.Nodup ∧ ∀ x ∈ k, ∃ j ∈ idx, ∃ e, ((edgesOfSize h s)[j]?).map (·.1) = some e ∧ x ∈ e)) ∧
+      (pn = 0 → Equiv h' h ∧ ∀ k, AL.get? h'.edges k = AL.get? h.edges k) := by
+  have hspec := shuffleCore_spec h wf s idx choices hd
+  refine ⟨shuffleCore h s idx choices, by simp [randomShuffle, hs, hp], hspec.wf, hspec.nodes, hspec.weighted,
+    hspec.other, hspec.sizes, ?_, ?_⟩
+  · intro k hk hl
+    rcases hspec.fromPool k hk hl with h1 | ⟨h1, h2⟩
+    · exact Or.inl h1
+    · refine Or.inr ⟨h1, ?_⟩
+      intro x hx
+      obtain ⟨e, he, hxe⟩ := h2 x hx
+      obtain ⟨j, hj, hc⟩ := (mem_selected_iff _ _ 0 e).mp he
+      exact ⟨j, by simpa using hj, e, hc, hxe⟩
+  · intro h0
+    subst h0
+    have : idx = [] := by
+      apply List.eq_nil_of_length_eq_zero
+      rw [hidx]; exact numToRandomize_zero _ _
+    subst this
+    have e := shuffleCore_p0 h wf s choices
+    exact ⟨e, fun k => e.get? hspec.wf k⟩
+
+/-- `random_shuffle_all_orders`: the same per-size step for every size of the hypergraph, in any iteration order.
+Node list and flag kept, class invariants kept, hyperedges whose size is not shuffled untouched, no hyperedge of a new
+size; `p = 0` (no index drawn at any size) changes no record; `inplace=False` leaves the argument as it was. -/
+theorem C14_shuffle_all (h : HG) (wf : WF h) (inplace : Bool) (pn : Int) (pd : Nat) (hp : 0 ≤ pn ∧ pn ≤ pd)
+    (sizes : List Nat) (draws : List (List Nat × List (List Nat))) (hd : ShuffleAllOK h sizes draws) :
+    ∃ h', randomShuffleAll h inplace pn pd sizes draws = some ⟨if inplace then h' else h, some h'⟩ ∧
+      WF h' ∧ h'.nodes = h.nodes ∧ h'.weighted = h.weighted ∧
+      (∀ k : Edge, k.length ∉ sizes → AL.get? h'.edges k = AL.get? h.edges k) ∧
+      (∀ k ∈ keys h', k ∈ keys h ∨ k.length ∈ sizes) ∧
+      ((∀ d ∈ draws, d.1 = []) → Equiv h' h ∧ ∀ k, AL.get? h'.edges k = AL.get? h.edges k) := by
+  obtain ⟨h1, h2, h3, h4, h5⟩ := shuffleAllLoop_spec sizes draws h wf hd
+  refine ⟨shuffleAllLoop h sizes draws, ?_, h1, h2, h3, h4, h5, ?_⟩
+  · simp only [randomShuffleAll, hp, and_self, if_true]
+    cases inplace <;> simp
+  · intro hnil
+    have e := shuffleAllLoop_p0 sizes draws h wf hnil
+    exact ⟨e, fun k => e.get? h1 k⟩
+
+/-- non-vacuity for `C14_shuffle`: weighted hypergraph with metadata; index 0 is selected, the choice `[1,0]` comes from
+the pool `[0,1]`; `[1,2]` keeps (3,2) and the size-3 hyperedge keeps (4,3) -/
+example : ShuffleDrawsOK ⟨true, [0, 1, 2, 3], [([0, 1], (2, 1)), ([1, 2], (3, 2)), ([1, 2, 3], (4, 3))]⟩ 2 [0] [[1, 0]] ∧
+    (shuffleCore ⟨true, [0, 1, 2, 3], [([0, 1], (2, 1)), ([1, 2], (3, 2)), ([1, 2, 3], (4, 3))]⟩ 2 [0] [[1, 0]]).edges
+      = [([1, 2, 3], (4, 3)), ([0, 1], (1, 0)), ([1, 2], (3, 2))] := by
+  refine ⟨?_, by decide⟩
+  intro c hc
+  simp only [List.mem_singleton] at hc
+  subst hc
+  simp only [IsSample]
+  decide
+
+/-- non-vacuity for `p = 0`: the unrepaired routine returned weights 1 and metadata `{}` here (D27) -/
+example : (shuffleCore ⟨true, [0, 1, 2, 3], [([0, 1], (2, 1)), ([1, 2], (3, 2)), ([1, 2, 3], (4, 3))]⟩ 2 [] []).edges
+    = [([1, 2, 3], (4, 3)), ([0, 1], (2, 1)), ([1, 2], (3, 2))] := by decide
+
+/-- witness of D27 in the model of the routine as it was before the repair: `p = 0` on the same weighted hypergraph
+resets the weights of the size-2 hyperedges to 1 and their metadata to `{}` -/
+example : (shuffleCoreUnrepaired ⟨true, [0, 1, 2, 3], [([0, 1], (2, 1)), ([1, 2], (3, 2)), ([1, 2, 3], (4, 3))]⟩ 2 [] []).edges
+    = [([1, 2, 3], (4, 3)), ([0, 1], (1, 0)), ([1, 2], (1, 0))] := by decide
+
+/-! ## further non-vacuity examples (hypotheses are jointly satisfiable on non-trivial inputs) -/
+
+/-- the class invariants hold for the weighted example hypergraph used above -/
+example : WF ⟨true, [0, 1, 2, 3], [([0, 1], (2, 1)), ([1, 2], (3, 2)), ([1, 2, 3], (4, 3))]⟩ :=
+  ⟨by decide, by decide, by decide, by decide⟩
+
+/-- `C14_seeded` on a toy generator (state = counter, a sample = the first `k` members of the population rotated by the
+state): seed 1, two different ambient worlds, the same non-trivial hypergraph -/
+example :
+    (randomHypergraphM ⟨fun s => s, fun st pop k => ((pop.rotateLeft st).take k, st + 1)⟩ 4 [(2, 3)] (some 1) ⟨0, 0⟩).1.edges
+      = [([1, 2], (1, 0)), ([2, 3], (1, 0)), ([0, 3], (1, 0))] ∧
+    (randomHypergraphM ⟨fun s => s, fun st pop k => ((pop.rotateLeft st).take k, st + 1)⟩ 4 [(2, 3)] (some 1) ⟨5, 9⟩).1.edges
+      = [([1, 2], (1, 0)), ([2, 3], (1, 0)), ([0, 3], (1, 0))] ∧
+    (randomHypergraphM ⟨fun s => s, fun st pop k => ((pop.rotateLeft st).take k, st + 1)⟩ 4 [(2, 3)] none ⟨6, 9⟩).1.edges
+      ≠ [([1, 2], (1, 0)), ([2, 3], (1, 0)), ([0, 3], (1, 0))] := by decide
+
+/-- `C14_add_random_edges`: three samples, the second repeats the first hyperedge, so the loop needs all three to reach
+`k = 2`; the existing hyperedge `[0,1]` (weight 5, metadata 7) is untouched -/
+example : consumedExactly 2 [] [[2, 1], [1, 2], [0, 3]] = true ∧
+    (addRandomEdges ⟨true, [0, 1, 2, 3], [([0, 1], (5, 7))]⟩ 2 (some 1) none false [[2, 1], [1, 2], [0, 3]]).map
+      (fun r => (r.arg.edges, r.ret.map (·.edges)))
+      = some ([([0, 1], (5, 7))], some [([0, 1], (5, 7)), ([1, 2], (1, 0)), ([0, 3], (1, 0))]) := by decide
+
+/-- `C14_shuffle_all`: sizes 2 and 3; at size 2 position 1 is rewired (choice from the pool `[1,2]`), at size 3 nothing is
+selected; the draws satisfy `ShuffleAllOK` -/
+example : ShuffleAllOK ⟨true, [0, 1, 2, 3], [([0, 1], (2, 1)), ([1, 2], (3, 2)), ([1, 2, 3], (4, 3))]⟩ [2, 3]
+      [([1], [[2, 1]]), ([], [])] ∧
+    (randomShuffleAll ⟨true, [0, 1, 2, 3], [([0, 1], (2, 1)), ([1, 2], (3, 2)), ([1, 2, 3], (4, 3))]⟩ false 1 2 [2, 3]
+      [([1], [[2, 1]]), ([], [])]).map (fun r => r.ret.map (·.edges))
+      = some (some [([0, 1], (2, 1)), ([1, 2], (1, 0)), ([1, 2, 3], (4, 3))]) := by
+  refine ⟨?_, by decide⟩
+  simp only [ShuffleAllOK, ShuffleDrawsOK, IsSample, and_true]
+  refine ⟨?_, ?_⟩
+  · intro c hc
+    simp only [List.mem_singleton] at hc
+    subst hc
+    decide
+  · intro c hc; simp at hc
